@@ -94,6 +94,9 @@ class SimProblem(Problem):
     def Calculate(self, point, functionValue):
         return self._actor.on_objective_call(point, functionValue)
 
+    def __deepcopy__(self, memo):
+        return self          # the problem is the user's object: a checkpoint of the solver refers to the same problem
+
 
 class SharedSimProblem(SimProblem):
     """ONE Problem object handed to several solvers (parameter studies on one problem): the call is attributed to
@@ -186,6 +189,9 @@ class _Bracket(L.Listener):
         self.actor = actor
         self.opening = opening
 
+    def __deepcopy__(self, memo):
+        return self
+
     def BeforeMethodStart(self, method):
         self.actor.on_bracket("BeforeMethodStart", self.opening, (method,))
 
@@ -201,7 +207,7 @@ def make_recording_listener(actor, lid, overrides, via="direct"):
     via: direct (callbacks in the class body) | inherited (defined in an intermediate class, the attached object's
     class has an empty body) | mixin (callbacks come from a mixin listed before Listener) | console (subclass of the
     shipped ConsoleFullOutputListener: the overridden callbacks record, then call the shipped implementation)."""
-    ns = {}
+    ns = {"__deepcopy__": lambda self, memo: self}
     if via == "console":
         def _rec2(name):
             def cb(self, *args):
@@ -222,6 +228,22 @@ def make_recording_listener(actor, lid, overrides, via="direct"):
     for name in overrides:
         ns[name] = _rec(name)
     name = "Recording_" + "_".join(sorted(n[:2] + n[-4:] for n in overrides)) or "Recording_none"
+    if via == "router":
+        # on BeforeMethodStart this listener attaches a child listener to its solver (a router that picks a logger once it
+        # sees the problem): the child is attached before the first trial and is owed the full contract
+        child_lid = lid + 100
+
+        def bms(self, *args):
+            actor.on_user_callback(lid, "BeforeMethodStart", args)
+            if not getattr(self, "_attached", False):
+                self._attached = True
+                actor.solver.AddListener(make_recording_listener(actor, child_lid, ["BeforeMethodStart", "OnEndIteration", "OnMethodStop"]))
+                actor.world.fired["listener_attached_from_inside_BeforeMethodStart"] += 1
+        ns["BeforeMethodStart"] = bms
+    if via == "eq":
+        # value semantics: every instance of this class compares equal to every other (a dataclass-like recorder)
+        ns["__eq__"] = lambda self, other: type(other).__name__ == type(self).__name__
+        ns["__hash__"] = lambda self: 7
     if via == "inherited":
         base = type(name + "_Base", (L.Listener,), ns)
         cls = type(name, (base,), {})
@@ -303,6 +325,8 @@ class SolverActor:
         self.fired_faults = []
         self.persist_fault = None
         self.cb_count = {}
+        self.ucb_count = {}
+        self.fired_lfaults = []
         self.solve_budget = None
         self.solve_evals = 0
         self.solve_iters = 0
@@ -338,7 +362,9 @@ class SolverActor:
                         dens = np.int64(dens)
                     elif dt == "np.int32":
                         dens = np.int32(dens)
-                    kw = dict(eps=p.get("eps", 0.01), r=p["r"], itersLimit=p.get("itersLimit", 20000), evolventDensity=dens,
+                    rt = self.spec.get("r_type")
+                    rr = p["r"] if rt is None else (np.float64(p["r"]) if rt == "np.float64" else np.array(float(p["r"])))
+                    kw = dict(eps=p.get("eps", 0.01), r=rr, itersLimit=p.get("itersLimit", 20000), evolventDensity=dens,
                               refineSolution=p.get("refineSolution", False))
                     if self.spec.get("start_point") is not None:
                         # the documented startPoint parameter (the method ignores it at this commit)
@@ -486,7 +512,9 @@ class SolverActor:
             raise exc
         c.value = v
         c.completed = True
-        functionValue.value = v
+        vt = self.spec.get("value_type")
+        tv = v if vt is None else (np.float64(v) if vt == "np.float64" else np.array(v))
+        functionValue.value = tv
         w.log("eval", self.aid, "%d %s %s %s" % (idx, phase, vhex(y), fhex(v)))
         for mon in w.monitors:
             mon.on_eval(w, self, c)
@@ -495,7 +523,7 @@ class SolverActor:
             # Calculate(point, functionValue) -> FunctionValue); the holder it was given keeps its old content
             functionValue.value = self.holder_before
             nv = FunctionValue(functionValue.type, functionValue.functionID)
-            nv.value = v
+            nv.value = tv
             w.fired["objective_returns_new_holder"] += 1
             return nv
         return functionValue
@@ -563,6 +591,17 @@ class SolverActor:
         if not self.brackets:
             for mon in w.monitors:
                 mon.on_callback(w, self, name, args)
+        self.ucb_count[(lid, name)] = self.ucb_count.get((lid, name), 0) + 1
+        for lf in w.lfaults.get(self.aid, []):
+            if lf["cb"] == name and int(lf.get("lid", lid)) == lid and int(lf["index"]) == self.ucb_count[(lid, name)]:
+                # the user's listener fails: the library lets the exception travel (DoGlobalIteration) or contains it (Solve)
+                self.cb_depth = 0          # the notification loop is being abandoned: the closing bracket will not run
+                exc = core.EXC_KINDS[lf.get("exc", "ValueError")]("injected fault in listener %d %s #%d" % (lid, name, lf["index"]))
+                _INJECTED.append(exc)
+                self.fired_lfaults.append((lid, name, lf["index"]))
+                w.fired["listener_raise:" + name] += 1
+                w.log("ucb_raise", self.aid, "%d %s %s" % (lid, name, lf.get("exc", "ValueError")))
+                raise exc
 
     def _resolve_pending(self):
         refine = bool(self.params.get("refineSolution", False))
@@ -621,19 +660,19 @@ class SolverActor:
         delivered, self.delivered = self.delivered, []
         if not newcalls and not new_inner:
             return
-        cands = []
-        tail = getattr(self.solver.searchData, "_allTrials", None)
-        if isinstance(tail, list):
+        def cands():
+            tail = getattr(self.solver.searchData, "_allTrials", None)
             ids = {id(it) for it in new_inner}
-            cands.append([it for it in tail if id(it) in ids])
-        cands.append([it for it in delivered if id(it) in {id(i) for i in new_inner}])
-        cands.append(_greedy_match(new_inner, newcalls))
+            if isinstance(tail, list):
+                yield [it for it in tail if id(it) in ids]
+            yield [it for it in delivered if id(it) in ids]
+            yield _greedy_match(new_inner, newcalls)      # quadratic: only reached when the cheaper orders do not fit
         chosen = None
         # local refinement rewrites the point of the then-best item in place: tolerate one such
         # item per refinement performed, provided its stored point is one refinement evaluated
         refined_pts = {c.y for c in self.calls if c.phase == "local"}
         allowed = len({c.op_no for c in self.calls if c.phase == "local"})
-        for cand in cands:
+        for cand in cands():
             if cand is None or not (len(cand) == len(newcalls) == len(new_inner)):
                 continue
             bad = [it for it, c in zip(cand, newcalls) if not _same_point(it, c.y)]
@@ -765,6 +804,9 @@ class World:
                 self.nested_cb[(n["host"], n["at"], int(n["index"]))] = n["ops"]
         for ft in plan.get("faults", []):
             self.actors[ft["a"]].faults.append(ft)
+        self.lfaults = {}
+        for lf in plan.get("lfaults", []):
+            self.lfaults.setdefault(lf["a"], []).append(lf)
         from collections import Counter
         self.fired = Counter()
         self.inconclusive = Counter()
@@ -940,6 +982,15 @@ class World:
                 a.solver.DoLocalRefinement(int(op["n"]))
             elif kind == "evq":
                 outcome["evq"] = a.query_evolvent(op)
+            elif kind == "clone":
+                # checkpoint / rollback: the user continues with a deep copy of the solver
+                import copy as _copy
+                a.solver = _copy.deepcopy(a.solver)
+                a.parameters = a.solver.parameters
+                a.known_items = {}
+                for it in a.walk():
+                    a.known_items[id(it)] = it
+                self.fired["solver_replaced_by_its_deep_copy"] += 1
             elif kind == "setp":
                 # the user changes a public field of the SolverParameters object between calls (e.g. raises the budget
                 # and resumes); only generated for solvers that own their parameters object
